@@ -481,8 +481,10 @@ func (s *Stream) skipValue(depth int64) error {
 				return err
 			}
 			return nil
+		default:
+			s.cursor = cursor
+			return errors.ErrUnexpectedEndOfJSON("null", s.totalOffset())
 		}
-		cursor++
 	}
 }
 
